@@ -518,6 +518,12 @@ impl Store {
         }
     }
 
+    /// End of a scenario: stop gating (a parked worker would block a joining Drop), then close.
+    pub fn close_released(&mut self) {
+        trace::gate_disable();
+        self.close();
+    }
+
     pub fn dump_live(&self) -> Result<String, String> {
         self.rl().dump().write_to_string().map_err(|e| e.to_string())
     }
